@@ -41,17 +41,29 @@ package nbhttp
 //@ ghost local Response.gLenStr : Int
 
 //@ func (*Response).WriteHeader
-//@   trusted
+//@   props C09
+//@   safety index slice nil div assert panic make
 //@   note status bookkeeping only: does not touch the buffers
-//@   assigns res.status, res.statusCode, allocates
+//@   ensures code: !old(res.hijacked) && old(res.statusCode) == 0 && 100 <= statusCode && statusCode <= 999 ==> res.statusCode == statusCode   // prop C09
+//@   ensures once: old(res.statusCode) != 0 ==> res.statusCode == old(res.statusCode)                                  // prop C09
+//@   assigns res.status, res.statusCode, allmaps("string", "[]string"), allocates
 //@ func (*Response).checkChunked
-//@   trusted
+//@   props C09
+//@   safety index slice nil div assert panic make
 //@   note framing decision: does not touch the buffers
+//@   requires res.request != nil
 //@   ensures old(res.chunkChecked) ==> res.chunked == old(res.chunked)
-//@   assigns res.chunked, res.chunkChecked, allocates
+//@   ensures res.chunkChecked
+//@   ensures excl: !old(res.chunkChecked) && res.chunked && res.header != nil ==> !has(res.header, contentLengthHeader)   // prop C09
+//@   assigns res.chunked, res.chunkChecked, allmaps("string", "[]string"), allelems("string"), allocates
+//@   loop 1
+//@     invariant rangeindex >= -1 && res.chunkChecked && res.chunked == old(res.chunked)
 //@ func (*Response).contentLength
-//@   trusted
+//@   props C09
+//@   safety index slice nil div assert panic make
 //@   note parses the Content-Length header: does not touch the buffers
+//@   ensures result1 == nil && result0 > 0 ==> res.contentLen == result0
+//@   ensures old(res.contentLen) > 0 ==> result1 == nil && result0 == old(res.contentLen) && res.contentLen == old(res.contentLen)
 //@   assigns res.contentLen, allocates
 //@ func (*Response).eoncodeHead
 //@   props C09 C11
